@@ -1,11 +1,11 @@
 package main
 
 import (
-	"sort"
 	"encoding/json"
 	"fmt"
 	"io"
 	"reflect"
+	"sort"
 	"strings"
 
 	"github.com/corazawaf/coraza/v3/verifrt"
@@ -103,9 +103,9 @@ func c05Run(w *verifrt.World, tier Tier) *RunResult {
 		}
 		ovr +=
 			"SecRule REQUEST_BODY \"@rx .\" \"id:9971,phase:2,pass,nolog,tag:'ovr',msg:'ovr'\"\n" +
-			"SecRule ARGS_POST|ARGS_GET \"@rx .\" \"id:9972,phase:2,pass,nolog,tag:'ovr',msg:'ovr'\"\n" +
-			"SecRule RESPONSE_BODY \"@rx .\" \"id:9973,phase:4,pass,nolog,tag:'ovr'\"\n" +
-			"SecRule ARGS \"@rx (?i)evil\" \"id:9974,phase:2,deny,status:403,log,auditlog,tag:'ovr',msg:'ovr'\"\n"
+				"SecRule ARGS_POST|ARGS_GET \"@rx .\" \"id:9972,phase:2,pass,nolog,tag:'ovr',msg:'ovr'\"\n" +
+				"SecRule RESPONSE_BODY \"@rx .\" \"id:9973,phase:4,pass,nolog,tag:'ovr'\"\n" +
+				"SecRule ARGS \"@rx (?i)evil\" \"id:9974,phase:2,deny,status:403,log,auditlog,tag:'ovr',msg:'ovr'\"\n"
 		res.count("override_runs", 1)
 	}
 	text := cfg.Text() + ovr + strings.Join(c06Special(t), "\n") + "\n" + fmt.Sprintf("SecRule %s \"@unconditionalMatch\" \"id:9991,phase:5,pass,nolog\"\n", c05DumpVars)
